@@ -3,6 +3,9 @@
 import json, os
 HOOK_COMMITS = ["1d323e3"]
 CHECKS = {
+ "C08": dict(cat="exploration", tech="runtime monitoring: oracle over real runs under an execution limit (error text at the API boundary, catch-marker output, TimeoutArmed/Polled/Fired events of the observer hook, residue invariant, watchdog for non-return) over a shape x nesting x wrapper x limit grid",
+   text="9 endless shapes x 10 nestings x 6 try/catch wrappers x 3-4 limits (complete grid on two builds in the thorough tier, seeded sample in the quick tier): each run must return before a watchdog with a timeout error, no catch block may have run, the overshoot measured inside the VM at the TimeoutFired event stays below max(3L, L + 1 s) (three attempts), the VM is quiescent afterwards and a probe script runs on the same instance. Terminating generated programs must behave identically with and without a limit.",
+   note="Bounded-progress restatement of 'eventually'. Overshoot verdicts are taken inside the VM (hook H3) with serial retries; at most 8 workers run so that cores stay idle. Native-only loops are excluded as documented.", ref="4 C08"),
  "C07": dict(cat="fault_enumeration", tech="runtime monitoring: residue invariant at the VM state hook after every host API call over generated operation histories with planted faults + relational monitor against a fresh instance replaying only the completed effects",
    text="About 65 000 histories (570 000 host calls) per quick run on persistent Koto instances: succeeding scripts, scripts failing through 36 planted fault kinds after explicit effects, exported-function calls with good and bad arguments, native calls with good and bad arguments, throwing displays, compile errors, timeouts. After every call the VM state (registers, frames, builders, catch points, execution state, module placeholders) must equal the calibrated quiescent state; at the end exports and a probe battery must agree with a fresh instance that performed only the completed effects. Thorough runs use histories of up to 120 operations (register-creep horizon).",
    note="Trusted: hooks H1/H2 (read-only state snapshot); effects are explicit in the scripts, so no model of Koto is involved. Import failures are covered by C18.", ref="4 C07, 3.4.5"),
